@@ -104,6 +104,7 @@ func (p *printer) space() {
 }
 
 func (p *printer) newline() {
+	verifOp("newline", nil)
 	// pending here-documents begin at the next newline
 	var pending []*ast.Redir
 	for i, list := range p.stack {
@@ -112,10 +113,13 @@ func (p *printer) newline() {
 	}
 	for _, r := range pending {
 		p.w.WriteByte('\n')
+		verifOp("nl", nil)
+		verifOp("body", r)
 		p.word(r.Heredoc)
 		p.word(r.Delim)
 	}
 	p.w.WriteByte('\n')
+	verifOp("nl", nil)
 }
 
 func (p *printer) print(n ast.Node) (err error) {
@@ -269,6 +273,7 @@ func (p *printer) simpleCmd(x *ast.SimpleCmd, redirs []*ast.Redir) (err error) {
 
 func (p *printer) redir(r *ast.Redir) {
 	if r.Heredoc != nil {
+		verifOp("redir", r)
 		p.stack[len(p.stack)-1] = append(p.stack[len(p.stack)-1], r)
 	}
 
@@ -601,21 +606,29 @@ func (p *printer) funcDef(x *ast.FuncDef) {
 // while an expansion that spans lines is printed: they begin after the
 // line on which the word ends, not inside the expansion.
 func (p *printer) suspend() func() {
+	verifOp("suspend", nil)
 	stack := p.stack
 	p.stack = nil
-	return func() { p.stack = stack }
+	return func() {
+		verifOp("resume", nil)
+		p.stack = stack
+	}
 }
 
 func (p *printer) push() {
+	verifOp("push", nil)
 	p.stack = append(p.stack, nil)
 }
 
 func (p *printer) heredoc() {
+	verifOp("pop", nil)
 	// pop
 	list := p.stack[len(p.stack)-1]
 	p.stack = p.stack[:len(p.stack)-1]
 	for _, r := range list {
+		verifOp("popnl", nil)
 		p.newline()
+		verifOp("body", r)
 		p.word(r.Heredoc)
 		p.word(r.Delim)
 	}
